@@ -7,6 +7,7 @@ from ..model import AnalysisError
 from ..symval import Evaluator, Tup, NONE, NoneV, CallV, _single_atom
 from ..symcheck import Oracle, check_equal, compare_values, show
 from ..rules import where, optnum_rule
+from . import common
 from ..mutate import replace_in_function, substitute, text_variant
 from .c10 import ite_leaves
 
@@ -350,6 +351,7 @@ def dispersion_rule(repo, rep):
 
 def run(repo, rep):
     alg.reset()
+    common.typecheck_rules(repo, rep)
     rep.trust('sv/alg.py exact normal forms and exact differentiation; decimal literals are read as exact rationals')
     rep.trust('reference: Rueger (2012) eq. 6.11, 6.12; Ciddor (1996) eq. 9 as the sigma-derivative of eq. 1')
     orc = Oracle(ORACLE)
